@@ -45,6 +45,7 @@ expression core plus
 """
 import json
 import os
+import re
 import subprocess
 import sys
 
@@ -118,6 +119,10 @@ def ctype(n):
     q2 = t['qualType'].replace('const ', '').strip()
     if q2 in INT_TYPES:
         return ('int',) + INT_TYPES[q2]
+    for qq in (q, q2):
+        m = re.match(r'^(.*\S)\s*\[(\d+)\]$', qq)
+        if m and m.group(1).strip() in INT_TYPES and INT_TYPES[m.group(1).strip()][0] >= 8:
+            return ('arr',) + INT_TYPES[m.group(1).strip()] + (int(m.group(2)),)
     raise Refused('unsupported type ' + repr(t))
 
 
@@ -154,7 +159,7 @@ LEAN_KEYWORDS = {'end', 'from', 'at', 'in', 'do', 'then', 'else', 'if', 'fun', '
 
 
 def lean_id(name):
-    name = name.replace('->', '_').replace('*', 'out_').replace('$', 'x_')
+    name = name.replace('->', '_').replace('*', 'out_').replace('$', 'x_').replace('.', '_')
     return name + '_' if name in LEAN_KEYWORDS else name
 
 
@@ -210,6 +215,7 @@ class Tr:
         self.ret_type = None
         self.ret_ranges = []
         self.uses_ext = []
+        self.no_unroll = False
 
     def refuse(self, msg):
         raise Refused('%s: %s' % (self.fn, msg))
@@ -297,6 +303,10 @@ class Tr:
         if k in ('ImplicitCastExpr', 'CStyleCastExpr'):
             ck = n.get('castKind')
             sub = n['inner'][-1]
+            if ck == 'ArrayToPointerDecay' and self.mod:
+                key = self.arr_key(sub, env)
+                if key is not None:
+                    return V('0', ('aptr', key))
             if ck in ('LValueToRValue', 'NoOp', 'BitCast', 'ArrayToPointerDecay'):
                 return self.expr(sub, env)
             v = self.expr(sub, env)
@@ -374,6 +384,12 @@ class Tr:
                 return v
             self.refuse('unary operator ' + op)
         if k == 'ArraySubscriptExpr':
+            if self.mod:
+                el = self.elem(n, env)
+                if el is not None:
+                    key, idx, et = el
+                    arr = env[key] if key in env else self.mod.tables[key]
+                    return V(f'({self.atom(arr.e)}.getD {idx} 0#{et[1]})', et)
             b = self.expr(n['inner'][0], env)
             i = self.expr(n['inner'][1], env)
             if b.t[0] != 'ptr' or len(b.t) != 2 or b.t[1] in ('out', 'opaque') or i.t[0] != 'int':
@@ -483,10 +499,54 @@ class Tr:
             self.loads.append(off)
         return f'({region} ({off}))'
 
+    def arr_key(self, n, env):
+        """env key of a word array denoted by the lvalue `n` (local array / struct array field)"""
+        n = strip_parens(n)
+        if n.get('kind') == 'DeclRefExpr':
+            name = n['referencedDecl']['name']
+            v = env.get(name)
+            if isinstance(v, V) and v.t[0] == 'arr':
+                return name
+            if name not in env and self.mod:
+                return self.mod.table(name, self)
+            return None
+        if n.get('kind') == 'MemberExpr' and self.struct:
+            key, fld = self.field_key(n)
+            return key if fld[0] == 'arr' else None
+        return None
+
+    def elem(self, n, env):
+        """`a[i]` on a word array: (env key, Lean index text, element type)"""
+        b = self.expr(n['inner'][0], env)
+        if b.t[0] != 'aptr':
+            return None
+        key = b.t[1]
+        arr = env[key] if key in env else self.mod.tables[key]
+        i = self.expr(n['inner'][1], env)
+        if i.t[0] != 'int':
+            self.refuse('array index of type ' + str(i.t))
+        if i.r[0] < 0 or i.r[1] >= arr.t[3]:
+            self.refuse(f'index range {i.r} not inside the array {key}[{arr.t[3]}]')
+        idx = str(i.r[0]) if i.r[0] == i.r[1] else f'({i.e}).toNat'
+        return key, idx, ('int', arr.t[1], arr.t[2])
+
     def field_key(self, n):
-        """MemberExpr `buf->f` on the struct parameter -> (env key, field type)"""
-        if not self.struct or not n.get('isArrow'):
-            self.refuse('member access that is not param->field')
+        """MemberExpr `buf->f` / `buf->u.f` on the struct parameter -> (env key, field type)"""
+        if not self.struct:
+            self.refuse('member access without a struct parameter')
+        if not n.get('isArrow'):
+            outer = strip_parens(n['inner'][0])
+            if outer.get('kind') != 'MemberExpr':
+                self.refuse('member access that is not param->field')
+            okey, ofld = self.field_key(outer)
+            if ofld[0] != 'rec':
+                self.refuse('member of a non-record field')
+            path = okey.split('->', 1)[1] + '.' + n['name']
+            fld = self.struct[1].fields.get(path)
+            if fld is None:
+                self.refuse('field ' + path + ' is not part of the translated view of the struct '
+                            '(other union member / unsupported type)')
+            return self.struct[0] + '->' + path, fld
         b = n['inner'][0]
         while b.get('kind') in ('ImplicitCastExpr', 'ParenExpr'):
             if b.get('kind') == 'ImplicitCastExpr' and b.get('castKind') not in ('LValueToRValue', 'NoOp'):
@@ -710,6 +770,14 @@ class Tr:
                     self.refuse('declaration kind ' + str(d.get('kind')))
                 name = d['name']
                 t = ctype(d)
+                if t[0] == 'arr':
+                    if d.get('inner') or not self.mod:
+                        self.refuse('array declaration with an initialiser')
+                    nv = self.fresh(name)
+                    # contents before the first store are indeterminate in C; zeros here
+                    lets += f'let {nv} : Array (BitVec {t[1]}) := Array.replicate {t[3]} 0#{t[1]}\n'
+                    env[name] = V(nv, t)
+                    continue
                 if d.get('inner'):
                     init = d['inner'][0]
                     if self.mod and self.has_impure(init):
@@ -721,7 +789,12 @@ class Tr:
                     if t[0] == 'int':
                         if v.t[0] == 'bool':
                             v = self.tobv(v)
+                        if v.t[0] != 'int':
+                            self.refuse('integer initialised from ' + str(v.t))
                         v = self.conv(v, t)
+                    elif v.t[0] == 'aptr':
+                        env[name] = v          # a name for (the start of) a word array: no value of its own
+                        continue
                     elif v.t[0] != 'ptr':
                         self.refuse('pointer initialised from ' + str(v.t))
                 else:
@@ -789,6 +862,14 @@ class Tr:
                           f'{indent(el(self.refine(c0, env, False)))}'
         if k in ('WhileStmt', 'ForStmt') and self.mod:
             return self.loop(s, rest, env, ret)
+        if k == 'DoStmt' and self.mod:
+            body, cnd = s['inner'][0], s['inner'][1]
+            cv = self.peek(cnd, env)
+            if cv is None or cv.t[0] != 'int' or cv.r != (0, 0):
+                self.refuse('do-while other than `do { } while (0)`')
+            if any(x.get('kind') in ('BreakStmt', 'ContinueStmt') for x in walk(body)):
+                self.refuse('break / continue inside do { } while (0)')
+            return self.stmts([body] + rest, env, ret)
         if k == '$continue' or k == 'ContinueStmt':
             if not self.loops:
                 self.refuse('continue outside a loop')
@@ -841,7 +922,8 @@ class Tr:
         c0 = s['inner'][0]
         c = self.cond(c0, env)
         lets = self.flush_loads(env)
-        keys = [k for k in env if k in self.assigned_keys(s)]
+        asg = self.assigned_keys(s)
+        keys = [k for k in env if k in asg or ('$arrays' in asg and isinstance(env[k], V) and env[k].t[0] == 'arr')]
         if '$ev' in env:
             keys.append('$ev')
         ends = []
@@ -882,12 +964,15 @@ class Tr:
             return 'List Ev'
         if t[0] == 'opt':
             return f'Option ({t[1]})'
+        if t[0] == 'arr':
+            return f'Array (BitVec {t[1]})'
         self.refuse('no Lean type for ' + str(t))
 
     def assigned_keys(self, s):
         """env keys that the statement may assign (over-approximation by syntax)"""
         keys = set()
         allf = False
+        allarr = False
         for x in walk(s):
             k = x.get('kind')
             tgt = None
@@ -912,14 +997,16 @@ class Tr:
                     if pn is not None and self.roles.get(pn) == 'outval':
                         keys.add('*' + pn)
                 elif tgt.get('kind') == 'ArraySubscriptExpr':
-                    pass
+                    allarr = True
                 else:
                     self.refuse('assignment target inside a loop: ' + str(tgt.get('kind')))
         if allf and self.struct:
             keys |= {self.struct[0] + '->' + f for f in self.struct[1].fields}
+        if allarr:
+            keys |= {'$arrays'}
         return keys
 
-    def loop(self, s, rest, env, ret):
+    def loop(self, s, rest, env, ret, _rng=None, _dry=False):
         k = s['kind']
         if k == 'ForStmt':
             if len(s['inner']) != 5:
@@ -942,28 +1029,31 @@ class Tr:
         if self.has_impure(cond):
             self.refuse('call with side effects in a loop condition')
         for x in walk(body):
-            if x.get('kind') in ('LabelStmt', 'SwitchStmt', 'DoStmt'):
+            if x.get('kind') in ('LabelStmt', 'SwitchStmt'):
                 self.refuse('contains ' + x['kind'] + ' inside a loop')
-        un = self.unroll(cond, inc, body, rest, env, ret)
-        if un is not None:
-            return un
+        if not _dry and _rng is None:
+            un = self.unroll(cond, inc, body, rest, env, ret)
+            if un is not None:
+                return un
         assigned = self.assigned_keys(s)
+        if not _dry and _rng is None:
+            _rng = self.loop_ranges(s, rest, env, assigned)
         writes_mem = any(x.get('kind') == 'CallExpr' for x in walk(body)) or \
             any(x.get('kind') in ('BinaryOperator', 'CompoundAssignOperator') and
                 strip_parens(x['inner'][0]).get('kind') in ('ArraySubscriptExpr', 'UnaryOperator')
                 for x in walk(body))
         self.nloops += 1
         lname = f'{self.fn}_loop{self.nloops}'
-        keys = [key for key, v in env.items() if isinstance(v, V) and v.t[0] != 'ptrptr']
+        keys = [key for key, v in env.items() if isinstance(v, V) and v.t[0] not in ('ptrptr', 'aptr')]
         env2 = dict(env)
         params = []
         args0 = []
         if self.struct:
             # an untouched struct value travels as one parameter
             p, sd, _ = self.struct
-            fkeys = [p + '->' + f for f in sd.fields if sd.fields[f][0] != 'ptr']
+            fkeys = [p + '->' + f for f in sd.fields if sd.fields[f][0] not in ('ptr', 'rec')]
             sv = self.struct_val(env)
-            if not sv.startswith('({') and not any(fk in assigned for fk in fkeys):
+            if not sv.startswith('({') and not any(fk in assigned for fk in fkeys) and '$arrays' not in assigned:
                 pn = self.fresh(p)
                 params.append(f'({pn} : {sd.name})')
                 args0.append(sv)
@@ -975,12 +1065,15 @@ class Tr:
             pn = self.fresh(key)
             params.append(f'({pn} : {self.lean_type(v)})')
             chg = key in assigned or key.startswith('$') or key.startswith('*')
-            env2[key] = V(pn, v.t, None if chg else v.r, nz=v.nz and not chg)
+            r2 = None if chg else v.r
+            if chg and _rng and key in _rng:
+                r2 = _rng[key]           # invariant range found by loop_ranges
+            env2[key] = V(pn, v.t, r2, nz=v.nz and not chg)
         if writes_mem and self.struct:
             env2['$dirty'] = True
         args_now = ' '.join(args0 + [self.atom(env[key].e) for key in keys])
         ctx = {'name': lname, 'keys': keys, 'inc': inc, 'rest': rest,
-               'fixed': [x[1:].split(' : ')[0] for x in params[:len(args0)]]}
+               'fixed': [x[1:].split(' : ')[0] for x in params[:len(args0)]], 'dry': [] if _dry else None}
         v = self.expr(cond, env2)
         if v.t[0] == 'bool':
             c = v.e
@@ -995,9 +1088,12 @@ class Tr:
             cond = {'kind': 'NullStmt'}       # no range refinement from a test with side effects
         self.loops.append(ctx)
         try:
-            body_t = self.stmts([body, {'kind': '$continue'}], self.refine(cond, env2, True), ret)
+            body_t = self.stmts([body, {'kind': '$continue'}], self.refine(cond, env2, True),
+                                (lambda e, v=None, reach=False: 'DRY') if _dry else ret)
         finally:
             self.loops.pop()
+        if _dry:
+            return ctx['dry']
         exit_t = self.stmts(rest, self.refine(cond, env2, False), ret)
         text = (f'def {lname} {self.sigparams}(n : Nat) {" ".join(params)} : {self.ret_type} :=\n'
                 f'  match n with\n  | 0 => none\n  | n + 1 =>\n'
@@ -1027,7 +1123,7 @@ class Tr:
     def unroll(self, cond, inc, body, rest, env, ret):
         """loops whose every test is decided by interval analysis (`for (i = 0; i < 4; i++)` with
         `i` untouched by the body) are unrolled; None = not such a loop"""
-        if inc is None or self.static_truth(cond, env) is None:
+        if self.no_unroll or inc is None or self.static_truth(cond, env) is None:
             return None
         iv = strip_parens(inc)
         if iv.get('kind') != 'UnaryOperator' or iv.get('opcode') not in ('++', '--'):
@@ -1054,14 +1150,65 @@ class Tr:
             return e
         return f'({e})'
 
+    def loop_ranges(self, s, rest, env, assigned):
+        """invariant value ranges of the integer variables a loop assigns: a post-fixpoint of
+        r -> entry ∪ (ranges at the back edges when the body starts from r), found by a few
+        increasing rounds, widening, and decreasing rounds (each of which is again a post-fixpoint)"""
+        keys = [k for k in assigned if isinstance(env.get(k), V) and env[k].t[0] == 'int']
+        if not keys:
+            return {}
+        entry = {k: env[k].r for k in keys}
+
+        def step(r):
+            saved = (self.cnt, self.nloops, len(self.loopdefs), list(self.pending), list(self.loads),
+                     len(self.uses_ext), len(self.ret_ranges), list(self.loops))
+            try:
+                backs = self.loop(s, rest, env, None, _rng=r, _dry=True)
+            finally:
+                self.cnt, self.nloops = saved[0], saved[1]
+                del self.loopdefs[saved[2]:]
+                self.pending, self.loads = saved[3], saved[4]
+                del self.uses_ext[saved[5]:]
+                del self.ret_ranges[saved[6]:]
+                self.loops = saved[7]
+            out = {}
+            for k in keys:
+                lo, hi = entry[k]
+                for e in backs:
+                    lo, hi = min(lo, e[k].r[0]), max(hi, e[k].r[1])
+                out[k] = (lo, hi)
+            return out
+        r = dict(entry)
+        stable = False
+        for _ in range(3):
+            n = step(r)
+            if n == r:
+                stable = True
+                break
+            r = {k: (min(r[k][0], n[k][0]), max(r[k][1], n[k][1])) for k in keys}
+        if not stable:
+            n = step(r)
+            r = {k: (r[k] if (n[k][0] >= r[k][0] and n[k][1] <= r[k][1]) else full(env[k].t)) for k in keys}
+            for _ in range(3):          # r is a post-fixpoint from here on; F(r) is one as well
+                n = step(r)
+                if any(n[k][0] < r[k][0] or n[k][1] > r[k][1] for k in keys):
+                    return {k: full(env[k].t) for k in keys}     # not a post-fixpoint after all: give up
+                if n == r:
+                    break
+                r = n
+        return r
+
     def recur(self, ctx, env):
+        if ctx.get('dry') is not None:
+            ctx['dry'].append(env)
+            return 'DRY'
         args = ' '.join(ctx['fixed'] + [self.atom(env[key].e) for key in ctx['keys']])
         return f'{ctx["name"]} {self.sigargs}fuel n {args}'
 
     # ------------------------------------------------------------------ calls
     def struct_val(self, env):
         p, sd, _ = self.struct
-        flds = [f for f in sd.fields if sd.fields[f][0] != 'ptr']
+        flds = [f for f in sd.fields if sd.fields[f][0] not in ('ptr', 'rec')]
         e0 = env[p + '->' + flds[0]].e
         suffix = '.' + lean_id(flds[0])
         if e0.endswith(suffix):
@@ -1069,7 +1216,7 @@ class Tr:
             if all(env[p + '->' + f].e == base + '.' + lean_id(f) for f in flds):
                 return base
         return '({ ' + ', '.join(f'{lean_id(f)} := {env[p + "->" + f].e}' for f in sd.fields
-                                 if sd.fields[f][0] != 'ptr') + f' }} : {sd.name})'
+                                 if sd.fields[f][0] not in ('ptr', 'rec')) + f' }} : {sd.name})'
 
     def call_text(self, n, sig, env, outs=None):
         """Lean text of a call to a translated / extern function; returns (text, V of the C result)"""
@@ -1095,7 +1242,11 @@ class Tr:
                     v = self.tobv(v)
                 if v.t[0] != 'int':
                     self.refuse(f'call to {sig.name}: argument {pname} of type {v.t}')
-                words.append(self.atom(self.conv(v, pt).e))
+                cv = self.conv(v, pt[:3])
+                if len(pt) > 3 and not (pt[3][0] <= cv.r[0] and cv.r[1] <= pt[3][1]):
+                    self.refuse(f'call to {sig.name}: argument {pname} with range {cv.r} outside the '
+                                f'range {pt[3]} the callee was translated for')
+                words.append(self.atom(cv.e))
             elif role == 'outval':
                 b = strip_parens(a)
                 if b.get('kind') == 'UnaryOperator' and b.get('opcode') == '&' and \
@@ -1174,7 +1325,7 @@ class Tr:
             elif c == 'struct':
                 p, sd, _ = self.struct
                 for f, ft in sd.fields.items():
-                    if ft[0] != 'ptr':
+                    if ft[0] not in ('ptr', 'rec'):
                         env[p + '->' + f] = V(f'{proj(i)}.{lean_id(f)}', ft)
             elif c == 'ev':
                 nv = self.fresh('ev')
@@ -1294,6 +1445,19 @@ class Tr:
             if op not in ('++', '--'):
                 self.refuse('expression statement ' + op)
             tgt = target(s['inner'][0])
+            if tgt['kind'] == 'ArraySubscriptExpr' and self.mod:
+                el = self.elem(tgt, env)
+                if el is None or el[0] not in env:
+                    self.refuse('++ of an element of something else than a word array')
+                self.pure('an array index')
+                akey, idx, et = el
+                old = V(f'({self.atom(env[akey].e)}.getD {idx} 0#{et[1]})', et)
+                r = self.arith('+' if op == '++' else '-', old, V('', et, (1, 1)), et)
+                nv = self.fresh(akey)
+                sym = '+' if op == '++' else '-'
+                lets = f'let {nv} := {self.atom(env[akey].e)}.setIfInBounds {idx} ({old.e} {sym} 1#{et[1]})\n'
+                env[akey] = V(nv, env[akey].t)
+                return env, lets
             key = var_key(tgt)
             if key is None:
                 self.refuse('++ of a non-variable')
@@ -1341,6 +1505,8 @@ class Tr:
                     v = V(v.b if v.b is not None else f'({v.e} != 0#{v.t[1]})', ('bool',))
                 if v.t[0] != 'bool':
                     self.refuse('bool assigned from ' + str(v.t))
+            elif old.t[0] == 'aptr':
+                self.refuse('re-assignment of a pointer to a word array')
             elif old.t[0] == 'ptr':
                 if v.t != old.t and not (self.mod and v.t[0] == 'ptr' and old.e == '0'
                                          and old.t == ('ptr', 'bytes')):
@@ -1350,6 +1516,26 @@ class Tr:
             nv = self.fresh(key)
             env[key] = V(nv, v.t, v.r, nz=v.nz)
             lets = lets0 + f'let {nv} := {v.e}\n'
+            lets += self.flush(env)
+            return env, lets
+        npend = len(self.pending)
+        el = self.elem(lhs, env) if lhs['kind'] == 'ArraySubscriptExpr' and self.mod else None
+        if el is not None:
+            # a[i] = e  on a word array (local array, struct array field)
+            if len(self.pending) != npend:
+                self.refuse('side effect in the index of a store')
+            akey, idx, et = el
+            if akey not in env:
+                self.refuse('store into the constant table ' + akey)
+            if v.t[0] == 'bool':
+                v = self.tobv(v)
+            if v.t[0] != 'int':
+                self.refuse('array element assigned from ' + str(v.t))
+            v = self.conv(v, et)
+            nv = self.fresh(akey)
+            lets = lets0 + self.flush_loads(env)
+            lets += f'let {nv} := {self.atom(env[akey].e)}.setIfInBounds {idx} {self.atom(v.e)}\n'
+            env[akey] = V(nv, env[akey].t)
             lets += self.flush(env)
             return env, lets
         if lhs['kind'] == 'ArraySubscriptExpr' and self.mod:
@@ -1435,7 +1621,7 @@ def collect_labels(n, tr, depth=0):
         if n.get('kind') in ('WhileStmt', 'ForStmt', 'DoStmt', 'SwitchStmt', 'CallExpr'):
             tr.refuse('contains ' + n['kind'])
     else:
-        if n.get('kind') in ('DoStmt', 'SwitchStmt'):
+        if n.get('kind') == 'SwitchStmt':
             tr.refuse('contains ' + n['kind'])
         if n.get('kind') == 'LabelStmt' and depth > 0:
             tr.refuse('label inside a loop')
@@ -1521,9 +1707,10 @@ class StructDef:
     def lean(self):
         out = f'structure {self.name} where\n'
         for f, t in self.fields.items():
-            if t[0] == 'ptr':
+            if t[0] in ('ptr', 'rec'):
                 continue
-            out += f'  {lean_id(f)} : {"Bool" if t[0] == "bool" else "BitVec %d" % t[1]}\n'
+            lt = 'Bool' if t[0] == 'bool' else f'Array (BitVec {t[1]})' if t[0] == 'arr' else f'BitVec {t[1]}'
+            out += f'  {lean_id(f)} : {lt}\n'
         return out + 'deriving DecidableEq, Repr\n'
 
 
@@ -1595,28 +1782,19 @@ class Module:
         self.structs = {}
         self.parts = []
         self.need_ev = False
+        self.tables = {}
 
     # ---- declarations
-    def struct(self, cname):
+    def struct(self, cname, union_member=None, skip=()):
+        """Lean structure for `struct cname`.  Nested anonymous structs / unions are flattened
+        (`u.output32`); of a union exactly one member is part of the view (`union_member`:
+        union field name -> member), the others cannot be accessed (refused): no type punning.
+        `skip`: fields left out of the view (unsupported types; any access is refused)."""
+        union_member = union_member or {}
         for d in ast_docs(self.src, cname, self.repo, self.extra):
             if d.get('kind') == 'RecordDecl' and d.get('name') == cname and d.get('completeDefinition'):
                 fields = {}
-                for f in d.get('inner', []):
-                    if f.get('kind') != 'FieldDecl':
-                        continue
-                    if f.get('isBitfield'):
-                        raise Refused(f'struct {cname}: bit-field {f["name"]}')
-                    q = f['type'].get('desugaredQualType', f['type']['qualType'])
-                    if q in ('bool', '_Bool'):
-                        fields[f['name']] = ('bool',)
-                    elif q.endswith('*'):
-                        if q.replace('const ', '').strip() not in ('uint8_t *', 'unsigned char *', 'char *'):
-                            raise Refused(f'struct {cname}: pointer field {f["name"]} of type {q}')
-                        if any(t[0] == 'ptr' for t in fields.values()):
-                            raise Refused(f'struct {cname}: more than one pointer field')
-                        fields[f['name']] = ('ptr',)
-                    else:
-                        fields[f['name']] = ctype(f)
+                self._flatten(cname, d, '', fields, union_member, set(skip))
                 sd = StructDef(cname, fields)
                 self.structs[cname] = sd
                 self.parts.append(sd.lean())
@@ -1624,6 +1802,75 @@ class Module:
                     self.need_ev = True
                 return sd
         raise Refused('no definition of struct ' + cname)
+
+    def _flatten(self, cname, d, prefix, fields, union_member, skip):
+        pending_rec = None
+        for f in d.get('inner', []):
+            if f.get('kind') == 'RecordDecl':
+                pending_rec = f          # definition of the type of the next field
+                continue
+            if f.get('kind') != 'FieldDecl':
+                continue
+            name = prefix + f['name']
+            if f.get('isBitfield'):
+                raise Refused(f'struct {cname}: bit-field {name}')
+            q = f['type'].get('desugaredQualType', f['type']['qualType'])
+            if name in skip:
+                pending_rec = None
+                continue
+            if q in ('bool', '_Bool'):
+                fields[name] = ('bool',)
+            elif q.endswith('*'):
+                if q.replace('const ', '').strip() not in ('uint8_t *', 'unsigned char *', 'char *'):
+                    raise Refused(f'struct {cname}: pointer field {name} of type {q}')
+                if any(t[0] == 'ptr' for t in fields.values()):
+                    raise Refused(f'struct {cname}: more than one pointer field')
+                fields[name] = ('ptr',)
+            elif q.startswith('union ') or q.startswith('struct '):
+                if pending_rec is None or not pending_rec.get('completeDefinition'):
+                    raise Refused(f'struct {cname}: field {name} of a record type defined elsewhere')
+                fields[name] = ('rec', pending_rec.get('tagUsed'))
+                if pending_rec.get('tagUsed') == 'union':
+                    want = union_member.get(name)
+                    members = [x['name'] for x in pending_rec.get('inner', []) if x.get('kind') == 'FieldDecl']
+                    if want not in members:
+                        raise Refused(f'struct {cname}: union {name}: no member chosen among {members}')
+                    sub = dict(pending_rec)
+                    sub['inner'] = [x for x in pending_rec['inner']
+                                    if x.get('kind') != 'FieldDecl' or x['name'] == want]
+                    self._flatten(cname, sub, name + '.', fields, union_member, skip)
+                else:
+                    self._flatten(cname, pending_rec, name + '.', fields, union_member, skip)
+            else:
+                fields[name] = ctype(f)
+            pending_rec = None
+
+    def table(self, name, tr):
+        """a file-scope `static const` integer array used by a translated function: emitted once
+        as `def <name> : Array (BitVec w)` with the values of its initialiser"""
+        if name in self.tables:
+            return name
+        for d in ast_docs(self.src, name, self.repo, self.extra):
+            if d.get('kind') == 'VarDecl' and d.get('name') == name and d.get('inner'):
+                t = ctype(d)
+                q = d['type']['qualType']
+                if t[0] != 'arr' or 'const' not in q:
+                    tr.refuse(f'global {name} of type {q} is not a const integer array')
+                init = [x for x in d['inner'] if x.get('kind') == 'InitListExpr']
+                if not init or len(init[0].get('inner', [])) != t[3]:
+                    tr.refuse(f'table {name}: initialiser does not list all {t[3]} elements')
+                vals = []
+                for x in init[0]['inner']:
+                    v = tr.peek(x, {})
+                    if v is None or v.t[0] != 'int' or v.r[0] != v.r[1]:
+                        tr.refuse(f'table {name}: non-constant initialiser')
+                    vals.append(v.r[0] % (1 << t[1]))
+                lname = lean_id(name) if name not in ('K',) else name
+                body = ', '.join(f'{v}#{t[1]}' for v in vals)
+                self.parts.append(f'def {lname} : Array (BitVec {t[1]}) := #[{body}]\n')
+                self.tables[name] = V(lname, t)
+                return name
+        tr.refuse('reference to ' + name + ' (not a parameter, local or const table)')
 
     def extern(self, name, params, ret, struct_mut=True):
         """a function that is called but not translated: it becomes a parameter `ext_<name>`.
@@ -1651,11 +1898,13 @@ class Module:
         return ' → '.join(dom + [' × '.join(cod) if cod else 'Unit'])
 
     # ---- one function
-    def fn(self, cname, roles, stop_at=(), keep=(), flt=None, lean_name=None, _unrolled=False):
+    def fn(self, cname, roles, stop_at=(), keep=(), flt=None, lean_name=None, _unrolled=False, assume=None,
+           unroll=True):
         d = ast_of(self.src, cname, self.repo, self.extra, flt or self.flt or cname)
         name = lean_name or cname
         tr = Tr(name, roles, mod=self)
         tr.stop_at = tuple(stop_at)
+        tr.no_unroll = not unroll
         tr.keep = tuple(keep)
         body = [c for c in d['inner'] if c['kind'] == 'CompoundStmt'][0]
         collect_labels(body, tr)
@@ -1677,9 +1926,12 @@ class Module:
                 t = ctype(p)
                 if t[0] != 'int':
                     tr.refuse('value parameter of type ' + str(t))
-                env[pn] = V(lean_id(pn), t)
+                rng = (assume or {}).get(pn)
+                if rng is not None and not fits(rng, t):
+                    tr.refuse(f'assumed range of {pn} outside its type')
+                env[pn] = V(lean_id(pn), t, rng)
                 leanparams.append(f'({lean_id(pn)} : BitVec {t[1]})')
-                cparams.append((pn, 'val', t))
+                cparams.append((pn, 'val', t + ((rng,) if rng is not None else ())))
             elif role == 'struct':
                 if tr.struct:
                     tr.refuse('more than one struct parameter')
@@ -1692,7 +1944,7 @@ class Module:
                 sd = self.structs[w[1]]
                 tr.struct = (pn, sd, const)
                 for f, ft in sd.fields.items():
-                    if ft[0] != 'ptr':
+                    if ft[0] not in ('ptr', 'rec'):
                         env[pn + '->' + f] = V(f'{lean_id(pn)}.{lean_id(f)}', ft)
                 leanparams.append(f'({lean_id(pn)} : {sd.name})')
                 cparams.append((pn, 'struct', sd.name))
@@ -1864,7 +2116,7 @@ class Module:
         term = tr.stmts(body['inner'], env, ret)
         if has_loop and tr.nloops == 0:
             # every loop was unrolled: no fuel, no Option
-            return self.fn(cname, roles, stop_at, keep, flt, lean_name, _unrolled=True)
+            return self.fn(cname, roles, stop_at, keep, flt, lean_name, _unrolled=True, assume=assume)
         if _unrolled and tr.nloops:
             tr.refuse('internal: loop left after unrolling')
         if set(tr.uses_ext) - set(ext_used):
@@ -2022,12 +2274,26 @@ def c14t_module(repo=None, workdir='/tmp'):
     return m.text('Usual.Gen.C14T', GEN_NOTE % ('usual/string.c (forced-compat config)', 'C14'))
 
 
+def c05t_module(repo=None, workdir='/tmp'):
+    """usual/crypto/chacha.c: chacha_mix (4 + 9*8 + 4 quarter rounds, output words, 64-bit block
+    counter) and the rol32 of usual/bits.h it calls (translated for rotation counts 1..31; every
+    call site is checked to stay inside that range).  The double-round loop stays a loop."""
+    repo = repo or _default_repo()
+    stub = _stub(workdir, 'c05t_stub.c', '#include "usual/crypto/chacha.c"\n')
+    m = Module(stub, repo, flt='chacha_mix')
+    m.struct('ChaCha', union_member={'u': 'output32'})
+    m.fn('rol32', {'v': 'val', 's': 'val'}, assume={'s': (1, 31)}, flt='rol32')
+    m.fn('chacha_mix', {'ctx': 'struct'}, unroll=False)
+    return m.text('Usual.Gen.C05T', GEN_NOTE % ('usual/crypto/chacha.c, usual/bits.h', 'C05'))
+
+
 TTIE = {
     'C12': (c12t_module, 'usual/mbuf.h + usual/mbuf.c'),
     'C09': (c09t_module, 'usual/bits.h safe_mul_*'),
     'C11': (c11t_module, 'usual/utf8.c utf8_validate_string'),
     'C02': (c02t_module, 'usual/json.c parse_hex'),
     'C14': (c14t_module, 'usual/string.c memrchr'),
+    'C05': (c05t_module, 'usual/crypto/chacha.c chacha_mix + usual/bits.h rol32'),
     'C06': (c06t_module, 'usual/cbtree.c get_bit/find_crit_bit + usual/bits.h fls'),
 }
 
